@@ -81,7 +81,17 @@ def run(ctx, rep):
         before = [(c.values[0], c.fit_set, c.fitness) for c in pop]
         ids = [id(c) for c in pop]
         fit = CostFitness(costmod, delay=mp)
-        ev = Evaluation(fit, redundant=redundant, multiprocess=(rng.choice([2, 3, 4]) if mp else False))
+        nproc = rng.choice([2, 3, 4]) if mp else False
+        if rng.random() < 0.3:
+            # the sub-sampling phase is the same evaluation phase behind a change of the training data: the same individuals are
+            # due, the same count is owed, evaluated individuals stay untouched unless redundant evaluation was requested
+            from bingo.evaluation.random_subset_evaluation import RandomSubsetEvaluation
+            fit.training_data = np.arange(12)
+            ev = RandomSubsetEvaluation(fit, subset_size=rng.randrange(1, 12), redundant=redundant, multiprocess=nproc)
+            rep.count("phase", "RandomSubsetEvaluation")
+        else:
+            ev = Evaluation(fit, redundant=redundant, multiprocess=nproc)
+            rep.count("phase", "Evaluation")
         with warnings.catch_warnings():
             warnings.simplefilter("ignore")
             warm = 0
